@@ -1,5 +1,6 @@
 import Driver.Util
 import ClairModel.Model.Coalesce
+import ClairModel.Model.LayerFS
 
 /-
   Line protocol of C01 (stateless; one scenario per line):
@@ -8,6 +9,7 @@ import ClairModel.Model.Coalesce
     idx <layers> <kind>=<arts> ...        all coalescers, MergeSR, whiteout Resolver, IndexRecords
     del <hex fp> <hex whiteout path>      fileIsDeleted
     path <hex p>                          filepath.Base / Dir / Clean
+    flat <stack>                          flatten of a layer stack (Model/LayerFS.lean)
 
   <arts>   = `-` | layer `|` layer ...
   layer    = hash `;` pkgs `;` dists `;` repos `;` files          (items separated by `,`)
@@ -107,6 +109,7 @@ def stepLine (_ : Unit) (l : String) : Unit × String :=
     match hexStr fp, hexStr wh with
     | some fp, some wh => toString (fileIsDeleted fp wh)
     | _, _ => "bad-op"
+  | ["flat", s] => ClairModel.LayerFS.flatLine s
   | ["path", p] =>
     match hexStr p with
     | some p => s!"{strHex (base p)} {strHex (dir p)} {strHex (clean p)}"
